@@ -126,8 +126,15 @@ impl Gen<'_> {
         if self.swarm.preds && self.rng.chance(1, 6) {
             v.push(Rx::Pred(if self.rng.chance(1, 4) { "t".into() } else { self.rng.range(1, 3).to_string() }));
         }
-        let t = self.starter();
-        v.push(self.tok_rx(t));
+        let lead_rule = if self.rng.chance(1, 5) { self.callee(cx) } else { None };
+        match lead_rule {
+            // the body starts with a rule call (its first set decides the loop / branch)
+            Some(r) => v.push(Rx::Rule(r)),
+            None => {
+                let t = self.starter();
+                v.push(self.tok_rx(t));
+            }
+        }
         let cx2 = Ctx { depth: cx.depth + 1, ..cx };
         for _ in 0..self.rng.below(3) {
             v.extend(self.item(cx2, false));
@@ -211,13 +218,15 @@ impl Gen<'_> {
         } else {
             let mut v = vec![];
             let n = self.rng.range(1, 4);
+            let mut committed = false;
             for i in 0..n {
                 v.extend(self.item(cx, i == 0));
                 // a commit / return inside a rule that is called from an undoable alternative
-                if i == 0 && self.safe[r] && self.swarm.choices && self.rng.chance(1, 5) {
+                if self.safe[r] && self.swarm.choices && !committed && self.rng.chance(1, 5) {
                     v.push(Rx::Commit);
+                    committed = true;
                 }
-                if i == 0 && self.safe[r] && self.swarm.returns && self.rng.chance(1, 3) {
+                if self.safe[r] && self.swarm.returns && self.rng.chance(1, 4) {
                     v.push(Rx::Return);
                 }
             }
